@@ -212,6 +212,19 @@ type patWrite struct {
 	Expr string `json:"value_expr"`
 }
 
+// clientWrite is a store into filtering.Config.HTTPClient.
+type clientWrite struct {
+	ID   int    `json:"id"`
+	Pos  string `json:"pos"`
+	Func string `json:"func"`
+	// Kind 1: the value is a call of a module function all of whose returns
+	// are `&http.Client{…, Transport: &http.Transport{…}}` literals (a plain
+	// transport: http and https only unless a protocol is registered on it).
+	// 0: anything else.
+	Kind int    `json:"kind"`
+	Expr string `json:"value_expr"`
+}
+
 type funcInfo struct {
 	decl *ast.FuncDecl
 	pkg  *packages.Package
@@ -236,8 +249,11 @@ type extractor struct {
 	sites   []*site
 	writes  []*urlWrite
 	pats    []*patWrite
-	funcs   map[*types.Func]funcInfo
-	callsOf map[*types.Func][]callInfo
+	clients []*clientWrite
+	// protoRefs: uses of (*http.Transport).RegisterProtocol, http.NewFileTransport(FS).
+	protoRefs []string
+	funcs     map[*types.Func]funcInfo
+	callsOf   map[*types.Func][]callInfo
 	// fieldWrites: every value stored into a struct field in the module.
 	fieldWrites map[*types.Var][]fieldWrite
 	// nextRefs: references from outside internal/filtering/rulelist to the
@@ -329,6 +345,7 @@ func main() {
 	x.collect()
 	x.collectURLWrites()
 	x.collectPatternWrites()
+	x.collectClientFacts()
 	x.write()
 }
 
@@ -1555,6 +1572,122 @@ func paramIndexOf(info *types.Info, fd *ast.FuncDecl, obj types.Object) (int, bo
 	return paramIndex(info, fd, vr)
 }
 
+// ---------------------------------------------------------------- HTTP client
+
+func isHTTPType(t types.Type, name string) bool {
+	n := namedOf(t)
+
+	return n != nil && n.Obj().Pkg() != nil && n.Obj().Pkg().Path() == "net/http" && n.Obj().Name() == name
+}
+
+// plainClientLit recognises `&http.Client{…, Transport: &http.Transport{…}, …}`.
+func plainClientLit(info *types.Info, e ast.Expr) bool {
+	un, ok := ast.Unparen(e).(*ast.UnaryExpr)
+	if !ok || un.Op != token.AND {
+		return false
+	}
+	lit, ok := ast.Unparen(un.X).(*ast.CompositeLit)
+	if !ok {
+		return false
+	}
+	if tv, has := info.Types[lit]; !has || !isHTTPType(tv.Type, "Client") {
+		return false
+	}
+	for _, el := range lit.Elts {
+		kv, isKV := el.(*ast.KeyValueExpr)
+		if !isKV {
+			return false
+		}
+		if id, isID := kv.Key.(*ast.Ident); isID && id.Name == "Transport" {
+			tu, isUn := ast.Unparen(kv.Value).(*ast.UnaryExpr)
+			if !isUn || tu.Op != token.AND {
+				return false
+			}
+			tl, isLit := ast.Unparen(tu.X).(*ast.CompositeLit)
+			if !isLit {
+				return false
+			}
+			tv, has := info.Types[tl]
+
+			return has && isHTTPType(tv.Type, "Transport")
+		}
+	}
+
+	// No Transport given: http.DefaultTransport, which other code could have
+	// registered protocols on — not the recognised shape.
+	return false
+}
+
+// collectClientFacts lists the stores into filtering.Config.HTTPClient and
+// every use of the functions that teach a transport another URL scheme.
+func (x *extractor) collectClientFacts() {
+	var field *types.Var
+	for _, pkg := range x.pkgs {
+		if pkg.PkgPath != fltPkg {
+			continue
+		}
+		tn, _ := pkg.Types.Scope().Lookup("Config").(*types.TypeName)
+		if tn == nil {
+			continue
+		}
+		if st, ok := tn.Type().Underlying().(*types.Struct); ok {
+			for i := 0; i < st.NumFields(); i++ {
+				if st.Field(i).Name() == "HTTPClient" {
+					field = st.Field(i)
+				}
+			}
+		}
+	}
+	if field == nil {
+		fmt.Fprintln(os.Stderr, "extract c17: anchor field filtering.Config.HTTPClient not found")
+		os.Exit(3)
+	}
+	ws := append([]fieldWrite{}, x.fieldWrites[field]...)
+	sort.Slice(ws, func(i, j int) bool { return ws[i].val.Pos() < ws[j].val.Pos() })
+	for _, w := range ws {
+		cw := &clientWrite{ID: len(x.clients), Pos: x.pos(w.val.Pos()), Func: x.funcName(w.pkg, w.fn), Expr: x.exprText(w.val)}
+		if call, ok := ast.Unparen(w.val).(*ast.CallExpr); ok {
+			if fn := calleeOf(w.pkg.TypesInfo, call); fn != nil {
+				if fi, known := x.funcs[fn]; known && fi.decl.Body != nil {
+					all, any := true, false
+					ast.Inspect(fi.decl.Body, func(n ast.Node) bool {
+						switch r := n.(type) {
+						case *ast.FuncLit:
+							return false
+						case *ast.ReturnStmt:
+							any = true
+							if len(r.Results) != 1 || !plainClientLit(fi.pkg.TypesInfo, r.Results[0]) {
+								all = false
+							}
+						}
+
+						return true
+					})
+					if all && any {
+						cw.Kind = 1
+					}
+				}
+			}
+		}
+		x.clients = append(x.clients, cw)
+	}
+	for _, pkg := range x.pkgs {
+		for _, file := range pkg.Syntax {
+			for id, obj := range pkg.TypesInfo.Uses {
+				fn, ok := obj.(*types.Func)
+				if !ok || id.Pos() < file.Pos() || id.Pos() > file.End() {
+					continue
+				}
+				switch fullName(fn) {
+				case "net/http.Transport.RegisterProtocol", "net/http.NewFileTransport", "net/http.NewFileTransportFS":
+					x.protoRefs = append(x.protoRefs, x.pos(id.Pos())+" "+fullName(fn))
+				}
+			}
+		}
+	}
+	sort.Strings(x.protoRefs)
+}
+
 // ---------------------------------------------------------------- output
 
 func (x *extractor) write() {
@@ -1612,6 +1745,23 @@ func (x *extractor) write() {
 			strings.TrimPrefix(w.Func, modPath+"/internal/"))
 	}
 	sb.WriteString("]\n\n")
+	sb.WriteString("/-- A store into `filtering.Config.HTTPClient` (the client `reader` hands every non-absolute\n")
+	sb.WriteString("location to).  kind 1: a call of a module function whose every return is\n")
+	sb.WriteString("`&http.Client{…, Transport: &http.Transport{…}}`; kind 0: anything else. -/\n")
+	sb.WriteString("structure ClientWrite where\n  id : Nat\n  kind : Nat\n  deriving DecidableEq, Repr\n\n")
+	sb.WriteString("def clientWrites : List ClientWrite := [\n")
+	for i, w := range x.clients {
+		comma := ","
+		if i == len(x.clients)-1 {
+			comma = ""
+		}
+		fmt.Fprintf(&sb, "  ⟨%d, %d⟩%s  -- %s HTTPClient := %s in %s\n", w.ID, w.Kind, comma, w.Pos, oneLine(w.Expr),
+			strings.TrimPrefix(w.Func, modPath+"/internal/"))
+	}
+	sb.WriteString("]\n\n")
+	sb.WriteString("/-- Uses, in non-test code of the module, of `(*http.Transport).RegisterProtocol`,\n")
+	sb.WriteString("`http.NewFileTransport` and `http.NewFileTransportFS` (what makes a client serve `file:` URLs). -/\n")
+	fmt.Fprintf(&sb, "def protocolRegistrations : Nat := %d\n\n", len(x.protoRefs))
 	sb.WriteString("/-- References, outside internal/filtering/rulelist and outside tests, to the constructors\n")
 	sb.WriteString("(NewFilter, NewEngine, NewStorage, NewTextEngine) of the rule-list implementation that is not wired\n")
 	sb.WriteString("into the server yet. -/\n")
@@ -1650,7 +1800,8 @@ func (x *extractor) write() {
 			sum.URLWritesReq++
 		}
 	}
-	out := map[string]any{"summary": sum, "sites": x.sites, "url_writes": x.writes, "pattern_writes": x.pats, "repo": x.repo}
+	out := map[string]any{"summary": sum, "sites": x.sites, "url_writes": x.writes, "pattern_writes": x.pats, "client_writes": x.clients,
+		"protocol_registrations": x.protoRefs, "repo": x.repo}
 	b, err := json.MarshalIndent(out, "", " ")
 	must(err)
 	factsDir := filepath.Join(verif, "build/C17")
